@@ -127,7 +127,7 @@ def check(cx):
 
     # ---- C09.3 cache capacity is configuration ------------------------------------------------------------
     r3 = cx.rule("C09.3", "WMC: PageCache.capacity is written only by its constructors/setter (a checkpoint or clear() "
-                 "must not change it)", floor=1)
+                 "must not change it), and the value handed to the setter is never widened from a narrower persisted field", floor=2)
     wc = field_writers(p, CACHE).get("capacity", set())
     okset = {CACHE + "::set_capacity"}
     for x in sorted(wc):
@@ -135,6 +135,42 @@ def check(cx):
                    "%s writes PageCache.capacity: after it the cache refuses or mis-sizes every insertion (D6)" % x)
     if not wc:
         cx.bad(r3, "no-writer", "", "PageCache.capacity has no writer at all")
+
+    # the capacity handed to the setter is a full-width value: never a widened copy of a narrower (persisted) field —
+    # the header keeps the cache size in a u16, which silently wraps for sizes >= 65536
+    WIDTH = {"u8": 8, "u16": 16, "u32": 32, "u64": 64, "usize": 64, "i8": 8, "i16": 16, "i32": 32, "i64": 64, "isize": 64}
+    sc_sites = [c for c in K.sites(p, CACHE + "::set_capacity") if c.callee == CACHE + "::set_capacity"]
+    if not sc_sites:
+        cx.bad(r3, "set_capacity:no-call", "", "PageCache::set_capacity is never called")
+    for c in sc_sites:
+        g = c.fn
+        l = op_local(c.args[1]) if len(c.args) > 1 else None
+        narrow = []
+        seen_l = set()
+        work = [l]
+        while work:
+            x = work.pop()
+            if x is None or x in seen_l:
+                continue
+            seen_l.add(x)
+            for b in g.blocks:
+                for st in b["stmts"]:
+                    if st["dst"] != [x]:
+                        continue
+                    rv = st["rv"]
+                    if rv.get("r") in ("use", "cast"):
+                        o = rv["o"][0]
+                        pl = o.get("c") or o.get("m")
+                        if pl:
+                            if rv.get("r") == "cast" and rv.get("kind") == "IntToInt":
+                                sty = core.place_type(p, g, pl)
+                                if sty in WIDTH and WIDTH[sty] < WIDTH.get(rv.get("to"), 64):
+                                    narrow.append("%s -> %s" % (sty, rv.get("to")))
+                            work.append(pl[0])
+        cx.verdict(not narrow, r3, "set_capacity-arg@" + (g.root or g.id), c.where(), "capacity is a full-width configuration value",
+                   "%s sizes the cache from a value widened from a narrower integer (%s): the persisted cache size is a "
+                   "truncated copy, a database created with cache_size >= 65536 reopens with `size mod 65536` frames "
+                   "(0 frames: every statement fails)" % (g.id, ", ".join(narrow)))
 
     # ---- C09.4 the aborted bitmap ----------------------------------------------------------------------------
     r4 = cx.rule("C09.4", "FLOW/CONST: every bitmap accessor guards its index with a strict `txid < MAX_TRACKED_ABORTED_TXS` "
